@@ -9,6 +9,7 @@ partial def decDom (j : Json) : DNode :=
   | "text" => .text (jstr j "data")
   | "elem" => .elem (jstr j "name") ((jarr j "attrs").filterMap fun a => match a with
       | .arr #[.str k, .str v] => some (k, v)
+      | .arr #[.str k, .str v, _] => some (k, v)     -- third component: the namespace the parser split off (not emitted)
       | _ => none) kids
   | "comment" => .comment (jstr j "data") kids
   | "doctype" => .doctype (jstr j "data") kids
